@@ -89,8 +89,14 @@ def check_traverse(repo: Repo, rep: Report, rules: Dict[str, str]):
         it.hooks[("svg", "SVG._resolve_clip_path")] = lambda i, a, k: ClipTok(a[1], a[2] if len(a) > 2 else k.get("transform", AffTok()))
 
     outs = ok_outcomes(run(repo, "SVG.depth_first", build, setup_extra=extra), F)
-    if len(outs) != 1 or outs[0].raised:
-        raise AnalysisError(f"{F}: traversal of the schematic document did not complete ({outs[0].raised if outs else ''})")
+    fn = svg.func("SVG._traverse")
+    if len(outs) != 1:
+        raise AnalysisError(f"{F}: traversal of the schematic document forks into {len(outs)} paths")
+    if outs[0].raised:
+        for rid in dict.fromkeys(rules.values()):
+            rep.fail(rid, F, "depth_first() on a document with comments and processing instructions",
+                     f"the traversal raises {outs[0].raised} ({outs[0].raise_msg}) on the schematic document (comments / processing instructions among the children)", svg, fn)
+        return
     ctxs = list(outs[0].value)
     ref = _ref_traverse(holder["root"])
     got_names = [c.f["element"].name for c in ctxs]
@@ -655,9 +661,42 @@ def _check_doc3(root, P):
             P("refs", f"the template {t} stays in defs although no shape references it")
 
 
+def _simplify_doc4():
+    """Scenario 4: opacity, transform and clip-path on the root element apply to the whole document."""
+    c = El("clipPath", {"id": "c"}, [El("rect", {"width": "4", "height": "3"}, name="cr")], name="c")
+    a = El("path", {"d": pd(("M", (1, 1)), ("L", (2, 2))), "id": "a"}, name="a")
+    b = El("path", {"d": pd(("M", (3, 3)), ("L", (4, 4))), "id": "b", "opacity": "0.5"}, name="b")
+    return El("svg", {"viewBox": "0 0 10 10", "opacity": "0.25", "transform": "tRoot", "clip-path": "url(#c)", "fill": "red"}, [El("defs", {}, [c]), a, b], name="root")
+
+
+def _check_doc4(root, P):
+    _grammar_facts(root, P)
+    shapes = [n for n in _paths_under(root) if n.parent is not None and n.parent.local() != "defs"]
+    if len(shapes) != 2:
+        P("structure", f"{len(shapes)} shapes come out of a document with two paths")
+        return
+    for n, own in zip(shapes, (Fraction(1), Fraction(1, 2))):
+        op = Fraction(str(n.attrib.get("opacity", "1")))
+        p = n.parent
+        while p is not None:
+            op *= Fraction(str(p.attrib.get("opacity", "1")))
+            p = p.parent
+        if op != own * Fraction(1, 4):
+            P("structure", f"path {n.attrib.get('id')}: the opacities on its ancestor chain multiply to {op}; the root's opacity 0.25 applies to the whole document ({own * Fraction(1, 4)} expected)")
+        pc = Piece(_geom(n))
+        if pc.app != ("parse(tRoot)",):
+            P("transform", f"path {n.attrib.get('id')} is transformed by {pc.app}; the root's transform applies to the whole document")
+        kids = [clip_children(cl) for cl in pc.clips]
+        if len(kids) != 1 or [k[1] for k in kids[0]] != [("parse(tRoot)",)]:
+            P("clip", f"path {n.attrib.get('id')} is intersected with {kids}; the root's clip-path applies to the whole document, in the root's coordinate system")
+    if shapes[0].parent is shapes[1].parent and shapes[0].parent is root:
+        P("structure", "two overlapping paths under a translucent root are not kept in one translucent group")
+
+
 _SIMPLIFY_SCENARIOS = [("scenario 1 (groups, clip, stroke, transformed gradient)", _simplify_doc, _check_doc1),
                        ("scenario 2 (stacked and shared clips)", _simplify_doc2, _check_doc2),
-                       ("scenario 3 (gradient rewriting and references)", _simplify_doc3, _check_doc3)]
+                       ("scenario 3 (gradient rewriting and references)", _simplify_doc3, _check_doc3),
+                       ("scenario 4 (opacity, transform and clip-path on the root)", _simplify_doc4, _check_doc4)]
 
 
 def check_simplify(repo: Repo, rep: Report, rules: Dict[str, str]):
@@ -1522,3 +1561,168 @@ def collect_gate_patterns(repo: Repo, allow_text: bool):
     ok_outcomes(run(repo, "SVG.checkpicosvg", lambda: ([make_svg(_doc())], {"allow_text": allow_text}), setup_extra=extra), "svg.SVG.checkpicosvg")
     Interp._modcache = {}
     return list(dict.fromkeys(seen))
+
+
+# =========================================================================================== ignorable content
+def _full_struct(n):
+    if not isinstance(n.tag, str):
+        return ("#", repr(n.tag))
+    at = tuple(sorted((k, repr(v)) for k, v in n.attrib.items()))
+    kids = tuple(_full_struct(c) for c in n.children)
+    if n.local() == "defs":
+        kids = tuple(sorted(kids, key=repr))  # the order of gradients inside defs may differ (the property says so)
+    return (n.local(), at, kids)
+
+
+def _add_noise(root: El):
+    """Content renderers ignore, inserted everywhere: processing instructions, title/desc/metadata, foreign-namespace
+    elements (with svg content inside) and attributes, id-less symbols (with id'd content), attribute-less wrapper groups."""
+    FOREIGN = "{http://example.com/ns}"
+    containers = [n for n in root.subtree() if isinstance(n.tag, str) and n.local() in ("svg", "g", "defs")]
+    k = 0
+    for c in containers:
+        kids = list(c.children)
+        for i, ch in enumerate(kids):
+            if not isinstance(ch.tag, str):
+                continue
+            k += 1
+            idx = c.children.index(ch)
+            c._append(El(ETREE_PI, name=f"pi{k}"), idx)
+            if k % 2 == 0 and c.local() != "defs":
+                c._append(El(FOREIGN + "guide", {}, [El("path", {"id": f"foreign{k}", "d": pd(("M", (0, 0)), ("L", (9, 9)), ("L", (0, 9)), ("Z", ()))})]), idx)
+            if k % 3 == 0:
+                ch.attrib[FOREIGN + "label"] = "layer"
+        c._append(El("title", {}), 0)
+        c._append(El("desc", {}, [El("title", {})]), 1)
+        if c.local() != "defs":
+            # descriptive elements nested in one another, followed by more of them
+            c._append(El("metadata", {}, [El(FOREIGN + "rdf", {}), El("title", {}), El("desc", {})]), 0)
+            c._append(El("title", {}))
+            c._append(El("symbol", {}, [El("path", {"id": f"insym{k}", "d": pd(("M", (0, 0)), ("L", (9, 9)), ("L", (0, 9)), ("Z", ()))})]))
+    # attribute-less wrapper groups around every other top-level shape / group
+    top = [ch for ch in root.children if isinstance(ch.tag, str) and ch.local() in ("path", "rect", "g", "use")]
+    for i, ch in enumerate(top):
+        if i % 2 == 0:
+            idx = root.children.index(ch)
+            w = El("g", {})
+            root._append(w, idx)
+            w._append(ch)
+    root.attrib[FOREIGN + "version"] = "1"
+    # an id-less symbol (dead for every renderer) whose content shadows ids that live uses refer to, and contains dead uses
+    root._append(El("symbol", {}, [El("path", {"id": "pf", "fill": "lime", "d": pd(("M", (0, 0)), ("L", (1, 0)), ("L", (1, 1)), ("Z", ()))}),
+                                   El("path", {"id": "p2", "d": pd(("M", (0, 0)), ("L", (1, 0)), ("L", (1, 1)), ("Z", ()))})]))
+    return root
+
+
+def check_noise_invariance(repo: Repo, rep: Report, rule: str):
+    """topicosvg interpreted on the schematic document with and without ignorable content: the two results are equal
+    (element for element, attribute for attribute, geometry term for geometry term)."""
+    svg = repo["svg"]
+    F = "svg.SVG.topicosvg"
+    fn = svg.func("SVG.topicosvg")
+    rep.saw(F, "svg.SVG.remove_nonsvg_content", "svg.SVG.remove_processing_instructions", "svg.SVG.remove_anonymous_symbols", "svg.SVG.remove_title_meta_desc",
+            "svg._is_redundant", "svg._is_removable_group")
+
+    def clean():
+        r = _pipeline_doc()
+        for ch in list(r.children):
+            if not isinstance(ch.tag, str) or ch.local() in ("title", "metadata", "thing", "symbol"):
+                ch._detach()
+        r.attrib.pop("{http://example.com/ns}attr", None)
+        return r
+
+    outs_a, _ = run_pipeline(repo, 3, 1, doc=clean)
+    outs_b, _ = run_pipeline(repo, 3, 1, doc=lambda: _add_noise(clean()))
+    probs = []
+    if len(outs_a) != len(outs_b):
+        probs.append(f"the conversion takes {len(outs_a)} paths without and {len(outs_b)} paths with ignorable content")
+    for a, b in zip(outs_a, outs_b):
+        if a.raised or b.raised:
+            if a.raised != b.raised:
+                probs.append(f"without ignorable content the conversion {'raises ' + a.raised if a.raised else 'completes'}, with it it {'raises ' + b.raised + ' (' + b.raise_msg + ')' if b.raised else 'completes'}")
+            continue
+        sa_, sb_ = _full_struct(a.args[0].f["svg_root"]), _full_struct(b.args[0].f["svg_root"])
+        if sa_ != sb_:
+            probs += ["ignorable content changes the result: " + d for d in _struct_diffs(sa_, sb_)[:3]]
+    if probs:
+        rep.fail(rule, F, "conversion with and without ignorable content", f"{len(probs)} deviations; first: {probs[0]}", svg, fn)
+    else:
+        rep.ok(rule, F + " [ignorable content]", "schematic document with every supported feature, converted with and without processing instructions, title/desc/metadata, foreign elements/attributes, "
+                                                 "id-less symbols and attribute-less wrapper groups at every level: identical results", True)
+
+
+# =========================================================================================== style attributes
+def check_styles(repo: Repo, rep: Report, rule: str):
+    """apply_style_attributes interpreted on a schematic document, with and without parsed shapes in the cache:
+    every declaration of every style attribute (root, groups, shapes, gradient stops) becomes an attribute and wins over
+    the presentation attribute of the same element; the style attribute is consumed; nothing else changes."""
+    from sa.sym import method_of
+    svg = repo["svg"]
+    F = "svg.SVG.apply_style_attributes"
+    rep.saw(F, "svg.SVG._apply_styles", "svg_meta.parse_css_declarations", "svg_types.SVGShape.apply_style_attribute")
+    fn = svg.func("SVG.apply_style_attributes")
+
+    def doc():
+        stop = El("stop", {"offset": "0", "style": "stop-color:#ff0000;stop-opacity:0.5"}, name="stop")
+        grad = El("linearGradient", {"id": "g"}, [stop], name="grad")
+        p1 = El("path", {"id": "p1", "d": pd(("M", (1, 1)), ("L", (2, 2))), "fill": "orange", "stroke-width": "1", "style": "fill:teal; stroke-width : 2 ;opacity:0.5"}, name="p1")
+        p2 = El("path", {"id": "p2", "d": pd(("M", (3, 3)), ("L", (4, 4))), "fill": "orange"}, name="p2")
+        r1 = El("rect", {"id": "r1", "width": "3", "height": "2", "style": "fill:url(#g);display:none"}, name="r1")
+        g = El("g", {"id": "grp", "style": "opacity:0.5;stroke:blue", "opacity": "1"}, [p1, p2, r1], name="grp")
+        return El("svg", {"viewBox": "0 0 10 10", "style": "fill:red", "fill": "black"}, [El("defs", {}, [grad]), g], name="root")
+
+    want = {"root": {"fill": "red"}, "stop": {"stop-color": "#ff0000", "stop-opacity": "0.5", "offset": "0"},
+            "p1": {"fill": "teal", "stroke-width": "2", "opacity": "0.5", "id": "p1"}, "p2": {"fill": "orange", "id": "p2"},
+            "r1": {"fill": "url(#g)", "display": "none", "id": "r1", "width": "3", "height": "2"}, "grp": {"opacity": "0.5", "stroke": "blue", "id": "grp"}}
+    probs = []
+    for cached in (False, True):
+        def body(it, a, k):
+            s = a[0]
+            if cached:
+                it.call(method_of(repo, "svg", "SVG", "shapes"), [s], {})
+            it.call(method_of(repo, "svg", "SVG", "apply_style_attributes"), [s], {"inplace": True})
+            it.call(method_of(repo, "svg", "SVG", "_update_etree"), [s], {})
+            return s
+
+        outs = ok_outcomes(run(repo, body, lambda: ([make_svg(doc())], {})), F)
+        for o in outs:
+            tag = "with parsed shapes in the cache" if cached else "on the plain tree"
+            if o.raised:
+                probs.append(f"{tag}: raises {o.raised} ({o.raise_msg})")
+                continue
+            root = o.args[0].f["svg_root"]
+            seen = {}
+            for n in root.subtree():
+                if not isinstance(n.tag, str):
+                    continue
+                key = "root" if n is root else ("stop" if n.local() == "stop" else str(n.attrib.get("id", n.local())))
+                seen[key] = n
+            for key, w in want.items():
+                n = seen.get(key)
+                if n is None:
+                    probs.append(f"{tag}: element {key} vanished")
+                    continue
+                if "style" in n.attrib and str(n.attrib["style"]).strip():
+                    probs.append(f"{tag}: {key} keeps style={n.attrib['style']!r}")
+                for a_, v in w.items():
+                    got = n.attrib.get(a_)
+                    if a_ in ("width", "height", "offset", "id"):
+                        continue
+                    if got is None and v in ("1",):
+                        continue
+                    if str(got) != v and not (got is not None and _same_number(got, v)):
+                        probs.append(f"{tag}: {key}.{a_} = {got!r}; the style declaration / own attribute gives {v!r}")
+            if "p1" in seen and len([c for c in seen.get("grp", root).children if isinstance(c.tag, str)]) != 3:
+                probs.append(f"{tag}: children of the group changed")
+    if probs:
+        u = list(dict.fromkeys(probs))
+        rep.fail(rule, F, "style attributes on root, group, shapes and gradient stops", f"{len(u)} deviations; first: {u[0]}", svg, fn)
+    else:
+        rep.ok(rule, F, "root, group, two paths, a rect and a gradient stop, with and without cached shapes: every declaration becomes an attribute and overrides the element's own attribute; style consumed", True)
+
+
+def _same_number(a, b):
+    try:
+        return Fraction(str(a)) == Fraction(str(b))
+    except (ValueError, ZeroDivisionError):
+        return False
